@@ -104,7 +104,7 @@ def lib(with_numpy=False):
     if REPO not in sys.path:
         sys.path.insert(0, REPO)
     if with_numpy:
-        deps = os.path.join(VERIF, ".deps")
+        deps = os.environ.get("VERIF_DEPS") or os.path.join(VERIF, ".deps")
         if os.path.isdir(deps) and deps not in sys.path:
             sys.path.append(deps)
     # stub packages for the server backends, only when the real ones are missing
